@@ -115,12 +115,26 @@ func (o *vectorOperator) initOutputs(ctx context.Context) error {
 		}
 	}()
 
+	// The left side is waited for on every way out of this function, also when
+	// the right side fails or panics: a series loader that outlives the query
+	// would close its querier after Exec has returned.
+	var lhsErr error
+	lhsDone := false
+	waitLHS := func() {
+		if !lhsDone {
+			lhsDone = true
+			lhsErr = <-errChan
+		}
+	}
+	defer waitLHS()
+
 	lowCardSide, err := o.rhs.Series(ctx)
+	waitLHS()
 	if err != nil {
 		return err
 	}
-	if err := <-errChan; err != nil {
-		return err
+	if lhsErr != nil {
+		return lhsErr
 	}
 
 	o.lhSampleIDs = highCardSide
